@@ -8,17 +8,22 @@ WT=/tmp/wt/verify-$N
 git -C /repo worktree add -q --detach $WT HEAD || exit 2
 cleanup() { git -C /repo worktree remove --force $WT; }
 cd $WT
+RUN=$(grep -o "go test [^\`]*" $S/demo.txt | head -1)
 place() {
   for f in $S/*_test.go $S/*.go; do
     [ -f "$f" ] || continue
     b=$(basename $f)
     d=$(grep -o "[A-Za-z0-9_/.-]*$b" $S/demo.txt | grep / | head -1)
-    [ -z "$d" ] && d="syncer/$b"
+    if [ -z "$d" ]; then
+      # default: the package directory named by the run command
+      pk=$(echo "$RUN" | grep -o "\./[A-Za-z0-9_/.-]*" | tail -1 | sed 's#^\./##; s#/*$##; s#/\.\.\.$##')
+      [ -z "$pk" ] && pk=syncer
+      d="$pk/$b"
+    fi
     d=$(echo $d | sed 's#^\./##; s#^/*##')
     mkdir -p $(dirname $d); cp $f $d; echo $d
   done
 }
-RUN=$(grep -o "go test [^\`]*" $S/demo.txt | head -1)
 [ -z "$RUN" ] && { echo "$N: no run command found in demo.txt"; cleanup; exit 2; }
 files=$(place)
 r0=$(sh -c "$RUN" 2>&1); rc0=$?
